@@ -1,5 +1,7 @@
 import Proofs.Tokens
 import Proofs.Pagination
+import Proofs.PagLinksApi
+import Proofs.PagLater
 /-! C10 — pagelink pagination uses the same token scheme as C09; every token it issues is
     `buildToken i path` and is parsed back to the same pair on resume. -/
 namespace Traph.Props
@@ -26,5 +28,62 @@ theorem C10_resume {s : State} {a : Nat} {l c r : T} {lo hi : Option Stem}
     s.weInorder a startLru (some p0)
       = some (((T.node a l c r).weInorder s a (lruDirname startLru) 0).filter (fun it => lexLt cur0 it.2.1)) :=
   weInorder_resume hr ho hw hsz startLru hmem
+
+section Episodes
+open Traph State Pag
+/-! ### the request itself: whole episodes, every reachable state (Proofs/PagGeneric, PagWalk, PagLinksApi, PagLater) -/
+
+/-- THE PROPERTY: in every reachable state, for every webentity / prefix list / switch setting and every count ≥ 1, feeding each token back yields an episode whose link chunks concatenate to a rearrangement of the unpaginated answer (each link once with its weight), every non-final answer covers exactly `count` link-bearing source pages and carries a token, the final one says done; the episode is found by the executable iteration within (#sources / count) + 1 calls; and resumption from the token of ANY item of the walk (a page without links, a node of a later prefix: the D3 case) continues with exactly the links of the later items -/
+theorem C10_episode (cfg : Config) (dflt : Rule) (rules : List (Bytes × Rule)) (ops : List Op)
+    (hrules : ∀ ar ∈ rules, lruIter ar.1 ≠ [])
+    (hop : ∀ op ∈ ops, ∀ d rs, op ≠ .clear d rs) (hwf : ∀ op ∈ ops, OpWf op)
+    (hok : NoKeyErr (State.fresh cfg dflt rules []).1 ops)
+    (s : State) (hs : s = (State.fresh cfg dflt rules []).1.run ops)
+    (weid : Nat) (ps : List Bytes) (incInt incOut : Bool) (all : List PageLink)
+    (hall : s.webentityPagelinks weid ps false incInt incOut = .ok all) (count : Nat) (hc : 1 ≤ count) :
+    (∃ (chunks : List LinkChunk) (groups : List (List GX)),
+      LinkEpisode s weid ps incInt incOut count none chunks ∧
+      episodeLinks s weid ps incInt incOut count
+        ((linkSources s weid ps incInt incOut).length / count + 1) none = some chunks ∧
+      (chunks.flatMap (·.links)).Perm all ∧
+      groups.flatten = linkSources s weid ps incInt incOut ∧
+      Forall2 (fun (ch : LinkChunk) grp =>
+          ch.links = grp.flatMap (fun x => s.outLinksOfPage weid x.2.1 x.2.2.1 incInt incOut) ∧
+          ch.sourcePages = grp.length) chunks groups ∧
+      (∀ grp ∈ groups.dropLast, grp.length = count) ∧
+      (∀ ch ∈ chunks.dropLast, ch.done = false ∧ ch.sourcePages = count ∧ ch.token.isSome = true) ∧
+      (∃ l, chunks.getLast? = some l ∧ l.done = true ∧ l.token = none ∧ l.sourcePages ≤ count)) ∧
+    (∀ pre x post, gItems s (enumFrom 0 ps) = pre ++ x :: post → ∀ count', 1 ≤ count' →
+      ∃ chunks, LinkEpisode s weid ps incInt incOut count' (some (buildToken x.1 x.2.2.2)) chunks ∧
+        chunks.flatMap (·.links) = post.flatMap (fun y => srcLinks s weid incInt incOut (y.2.1, y.2.2.1))) :=
+  Traph.C10_reachable cfg dflt rules ops hrules hop hwf hok s hs weid ps incInt incOut all hall count hc
+
+/-- every token the request issues is the token of an item of the walk (so it can be resumed, by the theorem above, with any count) -/
+theorem C10_issued_tokens {s : State} {t : T} (h : Shape s t) (hi : Inv s t) {weid : Nat} {ps : List Bytes}
+    {incInt incOut : Bool} {all : List PageLink}
+    (hall : s.webentityPagelinks weid ps false incInt incOut = .ok all) (count : Nat) (hc : 1 ≤ count)
+    {chunks : List LinkChunk} (hep : LinkEpisode s weid ps incInt incOut count none chunks)
+    {ch : LinkChunk} (hch : ch ∈ chunks) {tk : Bytes} (htk : ch.token = some tk) :
+    ∃ pre x post, gItems s (enumFrom 0 ps) = pre ++ x :: post ∧ (s.cell x.2.1).flags.page = true ∧
+      tk = buildToken x.1 x.2.2.2 :=
+  Traph.C10_issued_tokens h hi hall count hc hep hch htk
+
+/-- a token issued before, fed back after any `clear`-free history of writes, still resumes: exactly the links of the current items sorting after its page, then the later prefixes -/
+theorem C10_resume_after_run {s : State} {t : T} (h : Shape s t) (hi : Inv s t) (hlive : Live s)
+    (ops : List Op) (hop : ∀ op ∈ ops, ∀ d rs, op ≠ .clear d rs) (hwf : ∀ op ∈ ops, OpWf op)
+    (hok : NoKeyErr s ops) {weid : Nat} {ps : List Bytes} {incInt incOut : Bool} {all : List PageLink}
+    (hall : s.webentityPagelinks weid ps false incInt incOut = .ok all) (count : Nat) (hc : 1 ≤ count)
+    (pre : List GX) (x : GX) (post : List GX) (hG : gItems s (enumFrom 0 ps) = pre ++ x :: post) :
+    ∃ p tl chunks, ps.drop x.1 = p :: tl ∧
+      LinkEpisode (s.run ops) weid ps incInt incOut count (some (buildToken x.1 x.2.2.2)) chunks ∧
+      chunks.flatMap (·.links)
+        = ((walkOf (s.run ops) p).filter (fun y => lexLt x.2.2.1 y.2.1)).flatMap
+            (fun it => srcLinks (s.run ops) weid incInt incOut (it.1, it.2.1))
+          ++ tl.flatMap (fun q => (walkOf (s.run ops) q).flatMap
+              (fun it => srcLinks (s.run ops) weid incInt incOut (it.1, it.2.1))) ∧
+      (∀ ch ∈ chunks.dropLast, ch.sourcePages = count) :=
+  Traph.C10_resume_after_run h hi hlive ops hop hwf hok hall count hc pre x post hG
+
+end Episodes
 
 end Traph.Props
